@@ -43,6 +43,7 @@ def run(ctx):
             check_loops(ctx, P, reach)
             F.check_iszero(ctx, P, "E8.iszero", check_asserts=True, need=())
     check_dep_contracts(ctx)
+    check_dep_surface(ctx, (("dev", ctx.prog("blst", "dev")), ("nodebug", ctx.prog("blst", "nodebug"))))
     check_choice_domain(ctx, ctx.prog("blst", "dev"))
     check_dep_callees(ctx, ctx.prog("blst", "dev"), A.check_aborts.__globals__["entry_fns"])
     from .posctl import run_posctl
@@ -124,6 +125,37 @@ def check_dep_contracts(ctx):
                 if c.get("trait") == "Deserialize" and c.get("self_ty") in ("Scalar", "G1Projective", "G2Projective") and r.get("crate") == e["crate"]:
                     reached.append((f, bb))
         ctx.ob("E8.dep", e["key"], not reached, "%s: %s; reachable from blsful through %d call site(s), e.g. %s" % (e["fn"], e["fails_on"], len(reached), [x[0].key for x in reached[:3]]), where=where(*reached[0]) if reached else None)
+
+
+# functions of the byte-handling dependencies that blsful calls on the pinned tree; each one is covered by a contract in
+# dep_contracts.json / DEP_ABORT_TRIAGED.  Another function of these crates (a fixed-buffer combiner, a polynomial
+# evaluator, an unchecked reader ..) has no contract: whether it can abort on hostile input has not been looked at.
+DEP_SURFACE = {
+    "vsss_rs": {"vsss_rs::Share::as_field_element", "vsss_rs::Share::as_group_element", "vsss_rs::Share::empty_share_with_capacity", "vsss_rs::Share::identifier", "vsss_rs::Share::identifier_mut", "vsss_rs::Share::is_zero", "vsss_rs::Share::value", "vsss_rs::Share::value_mut", "vsss_rs::Share::value_vec", "vsss_rs::combine_shares", "vsss_rs::combine_shares_group", "vsss_rs::shamir::split_secret", "vsss_rs::Share::with_identifier_and_value", "vsss_rs::Share::is_empty"},
+    "uint_zigzag": {"uint_zigzag::Uint::peek", "uint_zigzag::Uint::to_vec", "std::convert::From::from", "std::convert::TryFrom::try_from", "std::convert::Into::into", "uint_zigzag::Uint::to_bytes", "std::clone::Clone::clone", "std::default::Default::default"},
+    "hex": {"hex::decode_to_slice", "hex::encode", "hex::decode"},
+    "serde_bare": {"serde_bare::from_slice", "serde_bare::to_vec"},
+}
+
+
+def check_dep_surface(ctx, progs, rule="E8.dep-surface"):
+    n = 0
+    for name, P in progs:
+        for f in P.fns.values():
+            if f.from_expansion:
+                continue
+            for bb, t in f.calls():
+                c = t.get("callee") or {}
+                r = c.get("resolved") or {}
+                cr = c.get("crate") if c.get("crate") in DEP_SURFACE else (r.get("crate") if r.get("crate") in DEP_SURFACE else None)
+                if cr is None:
+                    continue
+                n += 1
+                pth = c.get("path") or ""
+                if pth not in DEP_SURFACE[cr]:
+                    ctx.ob(rule, "%s|%s->%s" % (name, f.key, pth), False, "%s build: %s calls `%s` of %s, for which no contract has been read (the functions blsful is known to call: %s)" % (name, f.key, r.get("path") or pth, cr, sorted(DEP_SURFACE[cr])[:6]), where=where(f, bb))
+    ctx.ob(rule, "census", True, "%d calls into vsss_rs / uint_zigzag / hex / serde_bare inspected: all to functions with a contract" % n)
+    ctx.floor(rule, "calls into the byte-handling dependencies", n, 60)
 
 
 def check_choice_domain(ctx, P, rule="E8.choice"):
